@@ -1,11 +1,11 @@
 /*UNIT
 {"props": ["C13"], "kind": "K1", "tier": "quick", "timeout": 600,
- "cbmc": ["--unwind", "66", "--memory-leak-check"], "extra_src": ["stubs/mem_sampled.c"],
- "functions": ["ZSTD_customMalloc","ZSTD_customCalloc","ZSTD_customFree","ZSTD_createDDictHashSet","ZSTD_freeDDictHashSet","ZSTD_DDictHashSet_expand","ZSTD_createDCtx_advanced","ZSTD_freeDCtx","ZSTD_createDDict_advanced","ZSTD_freeDDict","ZSTD_initDDict_internal"],
+ "cbmc": ["--memory-leak-check"], "extra_src": ["stubs/mem_sampled.c"],
+ "functions": ["ZSTD_customMalloc","ZSTD_customCalloc","ZSTD_customFree","ZSTD_createDCtx_advanced","ZSTD_freeDCtx","ZSTD_createDDict_advanced","ZSTD_freeDDict","ZSTD_initDDict_internal"],
  "floor": 50,
  "assumes": ["the caller's allocator either returns NULL or a fresh block of the requested size; every call may fail independently (all fault subsets at once)",
              "leak obligation: CBMC --memory-leak-check at the end of the harness (one nondeterministically tracked allocation must have been released)",
-             "dictionary content <= 7 bytes / raw-content mode in the DDict constructor (entropy loading is covered by the C08 units); the rehash loop of the freshly created 64-slot table is unwound completely (concrete bound)"],
+             "dictionary content <= 7 bytes / raw-content mode in the DDict constructor (entropy loading is covered by the C08 units); the multi-DDict hash set constructors are in unit c03_ddict_hashset"],
  "what": "decompression-side constructors under allocation failure at any subset of allocation points: result is NULL/error or a fully built object, no NULL result of the allocator is ever dereferenced, and after freeing (or after the failed call) nothing obtained from the caller's allocator is still live"}
 */
 #include "verif.h"
@@ -21,18 +21,7 @@ void harness(void)
 {
     IN(vint, which); IN(vsz, dsize); IN(vint, byRef);
     ZSTD_customMem const cm = { fail_alloc, fail_free, NULL };
-    if (which == 0) {
-        ZSTD_DDictHashSet* const hs = ZSTD_createDDictHashSet(cm);
-        if (hs) {
-            REACH("alloc: hash set created");
-            CLAIM(hs->ddictPtrTable != NULL && hs->ddictPtrTableSize == 64 && hs->ddictPtrCount == 0, "C13 alloc: a created hash set is fully built");
-            {   size_t const r = ZSTD_DDictHashSet_expand(hs, cm);
-                if (ZSTD_isError(r)) { REACH("alloc: expand failed"); CLAIM(hs->ddictPtrTable != NULL && hs->ddictPtrTableSize == 64, "C13 alloc: a failed expansion keeps the old table"); }
-                else { REACH("alloc: expanded"); CLAIM(hs->ddictPtrTable != NULL && hs->ddictPtrTableSize == 128, "C13 alloc: expansion doubles the table"); }
-            }
-            ZSTD_freeDDictHashSet(hs, cm);
-        } else { REACH("alloc: hash set creation failed"); }
-    } else if (which == 1) {
+    if (which == 1) {
         ZSTD_DCtx* const d = ZSTD_createDCtx_advanced(cm);
         if (d) { REACH("alloc: dctx created"); CLAIM(d->ddictLocal == NULL && d->inBuff == NULL && d->ddictSet == NULL && d->staticSize == 0, "C13 alloc: fresh DCtx owns nothing yet"); CLAIM(ZSTD_freeDCtx(d) == 0, "C13 alloc: freeDCtx succeeds"); }
         else { REACH("alloc: dctx creation failed"); }
